@@ -1062,8 +1062,20 @@ class Engine:
             self.samples.append(dict(obligation=oid, shape=self.tags.get("shape"), path=len(self.trace), formula=str(neg)[:400], info=info))
         r = self.check(neg)
         model = self.model() if r == z3.sat else None
+        self._links = []
         if r == z3.sat and self.mulmode == "uf" and self._refine_unknown.get(oid, 0) < 2:
             r, model = self._refine(neg, model, oid)
+        if r == z3.sat and not self.nra:
+            # prefer a counterexample on a dyadic grid (exactly representable in binary64, so that
+            # boundary cases of tolerances survive the float replay)
+            dm = self._dyadic_model(neg)
+            if dm is not None:
+                model = dm
+            elif len(o["cex"]) < 4 and self.stats.get("robust_tries", 0) < 40:
+                self.stats.inc("robust_tries")
+                rm = self._robust_model(neg, model)
+                if rm is not None:
+                    model = rm
         if r == z3.unsat:
             o["proved"] += 1
             if self.cross_check and self.stats.get("cross_checked", 0) + self.stats.get("cross_inconclusive", 0) < self.cross_check and o["proved"] <= 2:
@@ -1090,6 +1102,7 @@ class Engine:
         f = z3.Solver()
         f.add(*self.solver.assertions())
         f.add(neg)
+        f.add(*getattr(self, "_links", []))  # the product definitions, if the proof needed them
         txt = "(set-logic ALL)\n" + f.to_smt2()
         with tempfile.NamedTemporaryFile("w", suffix=".smt2", delete=False, dir="/var/tmp") as fh:
             fh.write(txt)
@@ -1142,6 +1155,7 @@ class Engine:
             return z3.sat, f.model()
         if r == z3.unsat:
             self.stats.inc("refuted_by_refinement")
+            self._links = links
             return z3.unsat, None
         self._refine_unknown[oid] = self._refine_unknown.get(oid, 0) + 1
         return z3.sat, model
@@ -1199,6 +1213,95 @@ class Engine:
             finally:
                 self.solver.pop()
         return self
+
+    def _dyadic_cons(self, k=16, bound=64):
+        cons = []
+        terms = list(self.inputs.values()) + [r for (_, _, r) in self.uflog][:40]
+        for v in terms:
+            if z3.is_real(v) and not z3.is_fp(v):
+                cons += [z3.IsInt(v * k), v >= -bound, v <= bound]
+        return cons
+
+    def _robust_model(self, neg, model, eps=2.0 ** -12):
+        """a counterexample away from the boundaries of the comparisons it depends on (z3's simplex
+        returns vertices: values sitting exactly on tolerances, which a float replay cannot
+        reproduce).  Every comparison atom of the path condition and of the negated obligation keeps
+        the truth value it has in `model`, with a margin eps where possible (soft constraints)."""
+        atoms = {}
+
+        def walk(e, depth=0):
+            if depth > 60 or not z3.is_bool(e):
+                return
+            if z3.is_app(e):
+                k = e.decl().kind()
+                if k in (z3.Z3_OP_LE, z3.Z3_OP_LT, z3.Z3_OP_GE, z3.Z3_OP_GT) and z3.is_arith(e.arg(0)):
+                    atoms[e.get_id()] = e
+                    return
+                for c in e.children():
+                    walk(c, depth + 1)
+
+        for a in list(self.solver.assertions())[-400:] + [neg]:
+            walk(a)
+        if not atoms or len(atoms) > 600:
+            return None
+        opt = z3.Optimize()
+        opt.set("timeout", 6000)
+        opt.add(*self.solver.assertions())
+        opt.add(neg)
+        e = _rv(eps)
+        for a in atoms.values():
+            l, r = a.arg(0), a.arg(1)
+            k = a.decl().kind()
+            try:
+                d = model.eval(l - r, model_completion=True)
+                neg_side = z3.is_true(z3.simplify(d < 0))
+                pos_side = z3.is_true(z3.simplify(d > 0))
+            except Exception:
+                continue
+            truth = z3.is_true(model.eval(a, model_completion=True))
+            if neg_side or (not pos_side and truth and k in (z3.Z3_OP_LE, z3.Z3_OP_LT)) or (not pos_side and not truth and k in (z3.Z3_OP_GE, z3.Z3_OP_GT)):
+                opt.add_soft(l - r <= -e)
+            elif pos_side or (not neg_side and truth and k in (z3.Z3_OP_GE, z3.Z3_OP_GT)) or (not neg_side and not truth and k in (z3.Z3_OP_LE, z3.Z3_OP_LT)):
+                opt.add_soft(l - r >= e)
+        t0 = time.time()
+        try:
+            r = opt.check()
+        except z3.Z3Exception:
+            return None
+        self.stats.inc("queries")
+        self.stats.inc("solver_s", time.time() - t0)
+        if r == z3.sat:
+            self.stats.inc("robust_models")
+            return opt.model()
+        return None
+
+    def _dyadic_model(self, neg):
+        if self.stats.get("dyadic_tries", 0) > 60:
+            return None
+        self.stats.inc("dyadic_tries")
+        links = getattr(self, "_links", [])
+        self.solver.set("timeout", 2000)
+        try:
+            t0 = time.time()
+            r = self.solver.check(neg, *self._dyadic_cons(), *([] if not self.mulmode == "uf" else []))
+            self.stats.inc("queries")
+            self.stats.inc("solver_s", time.time() - t0)
+            if r == z3.sat:
+                m = self.solver.model()
+                # under uninterpreted products the dyadic model must still be consistent with the
+                # true products of the logged applications
+                if self.mulmode == "uf":
+                    for name, args, res in self.uflog:
+                        if name == "MUL":
+                            if not z3.is_true(m.eval(res == args[0] * args[1], model_completion=True)):
+                                return None
+                        elif name == "DIV":
+                            if not z3.is_true(m.eval(z3.Or(args[1] == 0, res * args[1] == args[0]), model_completion=True)):
+                                return None
+                return m
+        finally:
+            self.solver.set("timeout", self.timeout_ms)
+        return None
 
     def _witness(self):
         """a concrete input that drives the real code down this (fully proved) path: replayed on
@@ -1366,7 +1469,7 @@ class ConcreteEngine:
         ok = builtins.bool(cond)
         self.checked.append(oid)
         if not ok:
-            self.failed.append(dict(obligation=oid, info=info))
+            self.failed.append(dict(obligation=oid, info=info, pos=len(self.checked), before_missing=not self.missing))
         return ok
 
     def reach(self, oid):
